@@ -67,6 +67,13 @@ def run(chk):
         cases.append({"src": f"put 1 into X\nrock Q with 1, 0\nsay 1\nif {cond}\nsay 2\nsay Y\nsay 3\n\nsay 4\nsay mysterious is less than true\nsay 5\n", "meta": "error-stops"})
     # a loop left by break after the body made the condition unevaluable
     cases.append({"src": "X is 0\nuntil X is greater than 10\nbuild X up\nsay X\nif X is 3\nput true into X\nbreak\n\n\nsay \"done\"\n", "meta": "break, condition unevaluable"})
+    # loops with an EMPTY body: the condition (with a side effect) is still evaluated before every iteration
+    for kind, cond in (("while", "roll Que"), ("until", "not roll Que"), ("while", "Step taking 5"), ("until", "Step taking 4")):
+        for blank in ("\n\n", "\n\n\n"):
+            pre = ("rock Que with 1, 2, 3, 0, 5\n" if "Que" in cond else
+                   "put 0 into Count\nStep takes Lim\nbuild Count up\n" + ("give back Count is less than Lim\n" if kind == "while" else "give back Count is as great as Lim\n") + "\n")
+            cases.append({"src": f"{pre}{kind} {cond}{blank}say \"after\"\n" + ("say Que\n" if "Que" in cond else "say Count\n"), "meta": "empty loop body"})
+            cases.append({"src": f"{pre}if true\n{kind} {cond}{blank}say \"inner\"\n\n" + ("say Que\n" if "Que" in cond else "say Count\n"), "meta": "empty loop body nested"})
     # an output fault in the middle: execution stops at that say
     faulted = []
     for c in cases[len(corpus_cases("exec")):len(corpus_cases("exec")) + (60 if quick else 600)]:
